@@ -316,6 +316,51 @@ var scenarios = []scenario{
 			s.opRead(f, 8192, 16384)
 		}
 	}},
+	{"more data than count: the surplus never becomes file content", func(s *seqRun) {
+		// a WRITE carries count bytes; a request buffer longer than count must leave no trace —
+		// not even beyond the new end of file, where a later extension would expose it
+		a := s.mk("create", s.root(), "surplus-a")
+		s.opWrite(a, 0, 10, 2, pat(0xaa, 100))
+		sz := uint64(300)
+		s.opSetattr(a, &sz, timeHow{}, timeHow{})
+		s.opRead(a, 0, 400)
+		b := s.mk("create", s.root(), "surplus-b")
+		s.opWrite(b, 1000, 16, 2, pat(0xbb, 600))
+		s.opWrite(b, 2000, 8, 2, pat(0x11, 8))
+		s.opRead(b, 0, 4096)
+		c := s.mk("create", s.root(), "surplus-c")
+		s.opWrite(c, 0, 4096+100, 2, pat(0xcc, 3*4096)) // the last block written only partly
+		s.opRestart()
+		sz = 3 * 4096
+		s.opSetattr(c, &sz, timeHow{}, timeHow{})
+		s.opRead(c, 4096, 8192)
+		s.opWrite(c, 5*4096+7, 4096, 0, pat(0xcd, 2*4096)) // unaligned, crossing a block boundary
+		sz = 8 * 4096
+		s.opSetattr(c, &sz, timeHow{}, timeHow{})
+		s.opRead(c, 5*4096, 3*4096)
+	}},
+	{"one READ over several holes, then a restart", func(s *seqRun) {
+		// a READ fills the holes it crosses; every block it allocates must be recorded in the inode
+		// on disk, whichever of the blocks of the request is the last one
+		for i, written := range [][]uint64{{2}, {0, 3}, {1}, {8 + 3}, {5, 8 + 512 + 2}} {
+			f := s.mk("create", s.root(), fmt.Sprintf("holes%d", i))
+			var end uint64
+			for _, b := range written {
+				s.opWrite(f, b*4096, 4096, 2, pat(byte(0x30+i), 4096))
+				if (b+1)*4096 > end {
+					end = (b + 1) * 4096
+				}
+			}
+			lo := uint64(0)
+			if end > 6*4096 {
+				lo = end - 6*4096
+			}
+			s.opRead(f, lo, uint32(end-lo))
+			s.opRestart()
+			s.opRead(f, lo, uint32(end-lo))
+			s.opGetattr(f)
+		}
+	}},
 	{"block-map boundaries", func(s *seqRun) {
 		f := s.mk("create", s.root(), "f")
 		for _, off := range []uint64{7*4096 + 100, (8+511)*4096 + 4000, (8+512+511)*4096 + 1, (8 + 512 + 512*3) * 4096} {
